@@ -247,8 +247,8 @@ pub fn derive_mask(src: &str, s: &mut S) -> String {
         10 => format!("*{}", &src[src.len().saturating_sub(4)..]),
         11 => format!("{}*", &src[..3.min(src.len())]),
         12 => {
-            // near miss: literal tail longer than the text offers
-            format!("*!*@{}9", host)
+            // near miss: one character more than the text offers (a literal, or a surplus '?')
+            format!("*!*@{}{}", host, if s.chance(50) { "9" } else { "?" })
         }
         13 => {
             // near miss: one character altered
@@ -648,7 +648,8 @@ pub fn gen_op(m: &Model, p: &Profile, seed: &OpSeed) -> Option<Op> {
                     .map(|ch| match m.chans.get(ch).and_then(|c| c.key.clone()) {
                         Some(k) if mode < 6 => k,
                         Some(_) => "wrong".to_string(),
-                        None => "x".to_string(),
+                        // (a keyless channel gets a dummy key or an empty place in the list)
+                        None => if s.chance(30) { String::new() } else { "x".to_string() },
                     })
                     .collect();
                 if mode == 9 {
